@@ -1212,6 +1212,9 @@ fn gen_session(args: &Args, emit: &mut dyn FnMut(String)) {
 }
 
 /// C02: order-preserving loss and duplication; every subset of small sessions
+// sessions whose FDT instance is repeated after the last transfer, with in-band FTI (exposes D44)
+const FDT_REPEAT_INBAND: bool = false;
+
 fn gen_loss(args: &Args, emit: &mut dyn FnMut(String)) {
     let thorough = args.tier == "thorough";
     let mut rng = Rng::new(args.seed.wrapping_mul(271).wrapping_add(11));
@@ -1229,6 +1232,26 @@ fn gen_loss(args: &Args, emit: &mut dyn FnMut(String)) {
             // the number of packets of the session is not known here: enumerate masks up to maxbits,
             // packets beyond that index are dropped (the mask channel keeps only indices < 64 with their bit set)
             for mask in 0u64..(1u64 << maxbits) {
+                n += 1;
+                if n % args.shard.1 != args.shard.0 {
+                    continue;
+                }
+                emit(format!("{} ; X mask 1 {}", head, mask));
+            }
+        }
+        // the FDT instance keeps being repeated (FDT carousel) after the object's last, close-flagged
+        // packet: a receiver that lost the first copy gets the whole transfer BEFORE an FDT (D43);
+        // OTI only in the FDT (packets cached) and in-band
+        for fti in [0u32, 1] {
+            if !FDT_REPEAT_INBAND && fti == 1 {
+                continue;
+            }
+            let par = if *fec == "nocode" { 0 } else { 1 };
+            let head = format!(
+                "V fec={} e=4 b=3 par={} cenc=null fti={} icenc=0 mode=full il=1 once=1 maxerr=0 cache=10485760 md5=1 tc=1 bld=S opn=1 fcar=20 idlems=30 maxpk=10 ; O 20 3 0 1",
+                fec, par, fti
+            );
+            for mask in 0u64..(1u64 << 10) {
                 n += 1;
                 if n % args.shard.1 != args.shard.0 {
                     continue;
@@ -1257,14 +1280,17 @@ fn gen_loss(args: &Args, emit: &mut dyn FnMut(String)) {
             1 => ("lossdup", rng.range(70, 97)),
             _ => ("dup", 0),
         };
+        // a third of the sessions keep repeating the FDT instance after the last transfer
+        let tail = if FDT_REPEAT_INBAND && i % 3 == 1 { " fcar=20 idlems=30 maxpk=160" } else { "" };
         emit(format!(
-            "V fec={} e={} b={} par={} cenc={} fti={} icenc={} mode={} il={} once=1 maxerr=0 cache=10485760 md5=1 tc={} bld=S opn=1 ; O {} {} 0 1 ; X {} {} {}",
+            "V fec={} e={} b={} par={} cenc={} fti={} icenc={} mode={} il={} once=1 maxerr=0 cache=10485760 md5=1 tc={} bld=S opn=1{} ; O {} {} 0 1 ; X {} {} {}",
             fec, e, b, par,
             if rng.chance(1, 6) { "zlib" } else { "null" },
             rng.below(2), rng.below(2),
             if rng.chance(1, 2) { "full" } else { "bt" },
             rng.range(1, 4),
             rng.range(1, 3),
+            tail,
             len, i % 19, xk, rng.below(1 << 30), xa
         ));
     }
